@@ -86,3 +86,16 @@ Theorem C08_fresh_decoders_agree : forall ck ex k1 k2 bs, 765 <= k1 -> 765 <= k2
   end.
 Proof. exact fresh_decoders_agree. Qed.
 Print Assumptions C08_fresh_decoders_agree.
+
+(* the decoder model's own read layer (Model/Decoder.v: read_raw, the only place the decoder touches the stream) meets the very
+   specification C08_read_n proves of readBuffer.ReadN over ANY chunking reader: the next n bytes of the stream, or an
+   end-of-stream error iff fewer remain (n <= 765: C08_requests_fit).  So the decoder model is the decoder over an arbitrary
+   fragmenting reader, error kind aside -- the two layers meet at one specification *)
+Theorem C08_decoder_reads_are_stream_reads : forall c s n, bufok s -> n <= 765 -> 765 <= c_bufsize c ->
+  match read_raw c s n with
+  | Base.Ok (b, s') => n <= len (s_rest s) /\ b = take n (s_rest s) /\ s_rest s' = drop n (s_rest s) /\ bufok s'
+  | Base.Err e => len (s_rest s) < n /\ (e = E_EOF \/ e = E_UnexpectedEOF)
+  | _ => False
+  end.
+Proof. exact read_raw_is_stream_read. Qed.
+Print Assumptions C08_decoder_reads_are_stream_reads.
